@@ -61,7 +61,7 @@ def run(ctx):
         ctx.log("tables:", msg)
         ob_failed.append("translator(gen/tables g11): " + msg)
     ok, log, failed = ctx.coq_make(GROUP)
-    c11_files = ("Tables.v", "Shutdown.v", "ShutdownCheck.v", "ShutdownProofs.v", "ShutdownAccepts.v", "ShutdownObligations.v", PROP_FILE)
+    c11_files = ("Tables.v", "Shutdown.v", "ShutdownCheck.v", "ShutdownProofs.v", "ShutdownAccepts.v", "ShutdownProgress.v", "ShutdownObligations.v", PROP_FILE)
     failed = [f for f in failed if f in c11_files]
     core_broken = [f for f in failed if f not in (PROP_FILE, "ShutdownObligations.v")]
     if "ShutdownObligations.v" in failed:
